@@ -193,7 +193,7 @@ func main() {
 			return 400
 		},
 		Run: run,
-		Floors: map[string]int64{"histories": 40, "flushes_judged": 300, "endpoint_judgements": 1000, "matching_pairs": 1000,
+		Floors: map[string]int64{"histories": 40, "flushes_judged": 300, "endpoint_judgements": 600, "matching_pairs": 1000,
 			"active_policy_judgements": 500},
 		CaseTimeout: 180 * time.Second,
 	})
